@@ -2251,3 +2251,56 @@ def annot_line(a):
             raise ValueError(a)
     walk(a)
     return "annot " + " ".join(out)
+
+
+def canon_tree_text(qsx):
+    """canonical text of rdflib's own translated tree (parsed s-expression of encode_rdflib_algebra): BGPs as sorted bags of
+    triple patterns (reorderTriples is not modelled), variable sets sorted, a VALUES block without rows as `(values)`, the
+    CONSTRUCT template left out — the format the driver's `translate` command prints for the Lean model of the translation"""
+    def vs(v):
+        return "none" if v == "none" else "(vars" + "".join(f" {k}" for k in sorted(set(_ints(v)))) + ")"
+
+    def ex(e):
+        k = e[0]
+        if k in ("var", "bound", "const"):
+            return f"({k} {e[1]})"
+        if k == "cmp":
+            return f"(cmp {e[1]} {ex(e[2])} {ex(e[3])})"
+        if k in ("and", "or"):
+            return f"({k} {ex(e[1])} {ex(e[2])})"
+        if k == "not":
+            return f"(not {ex(e[1])})"
+        if k in ("exists", "nexists"):
+            return f"({k} {al(e[1])})"
+        raise ValueError(e)
+
+    def al(a):
+        k = a[0]
+        if k == "bgp":
+            ts = sorted(" ".join(a[i:i + 3]) for i in range(1, len(a), 3))
+            return "(bgp" + "".join(" " + t for t in ts) + ")"
+        if k == "join":
+            return f"(join {a[1]} {al(a[2])} {al(a[3])})"
+        if k == "leftjoin":
+            return f"(leftjoin {al(a[1])} {al(a[2])} {ex(a[3])} {vs(a[4])} {vs(a[5])})"
+        if k == "filter":
+            return f"(filter {ex(a[1])} {al(a[2])} {vs(a[3])} {a[4]})"
+        if k == "union":
+            return f"(union {al(a[1])} {al(a[2])})"
+        if k == "minus":
+            return f"(minus {al(a[1])} {al(a[2])} {vs(a[3])} {vs(a[4])})"
+        if k == "extend":
+            return f"(extend {al(a[1])} {a[2]} {ex(a[3])} {vs(a[4])})"
+        if k == "graph":
+            return f"(graph {a[1]} {al(a[2])})"
+        if k == "values":
+            rows = a[2:]
+            if not rows:
+                return "(values)"
+            return ("(values (vars" + "".join(f" {x}" for x in a[1][1:]) + ")" +
+                    "".join(" (row" + "".join(f" {c}" for c in r[1:]) + ")" for r in rows) + ")")
+        if k == "project":
+            return f"(project {al(a[1])} {vs(a[2])})"
+        raise ValueError(a)
+    form = qsx[0]
+    return f"tree ({form} {vs(qsx[-2])} {al(qsx[-1])})"
